@@ -60,3 +60,22 @@ def describe_history(case):
         if o[0] == 'union':
             out.append('%s = %s' % (show_term(terms[hs[o[1]]]), show_term(terms[hs[o[2]]])))
     return out
+
+
+def egc_verdict(model_obs, wanted=None):
+    """observation of machine `egc` (EGraph/InvMachine.v): (inv (name bool) ...).  Returns None when every (wanted) field is
+    true or the history itself failed in the model, else a description of the false fields."""
+    if model_obs is None:
+        return None
+    pm = core.sx_parse(model_obs)
+    if not isinstance(pm, list) or not pm or pm[0] != 'inv':
+        return 'machine egc produced no observation: ' + model_obs.strip()[:200]
+    if len(pm) == 2 and pm[1] == 'history-error':
+        return None
+    got = {f[0]: f[1] for f in pm[1:] if isinstance(f, list) and len(f) == 2}
+    names = wanted if wanted is not None else list(got)
+    bad = [n for n in names if got.get(n) != 'true']
+    return ('false in the model: ' + ', '.join(bad)) if bad else None
+
+
+EGC_STREAM = {'name': 'invariant', 'component': 'egs', 'config': 'default', 'quick': 150, 'thorough': 3000, 'gen_extra': []}
